@@ -6,12 +6,18 @@ From Coq Require Import Lia ZifyBool ZifyN ZifyNat.
 From Clvm Require Import Model.Machine Proofs.MachineBasics.
 Open Scope N_scope.
 
-(* the dialect's operator function obeys the budget contract *)
+(* the dialect's operator function obeys the budget contract: a success stays the same success
+   under every larger budget, and a different budget can only turn it into CostExceeded *)
 Definition dop_budget (d : dialect) : Prop :=
   forall o a m ext c v, d_op d o a m ext = Ok (c, v) ->
   forall m', (m <= m' -> d_op d o a m' ext = Ok (c, v)) /\
-             (c <= m' -> d_op d o a m' ext = Ok (c, v)) /\
              (d_op d o a m' ext = Ok (c, v) \/ d_op d o a m' ext = Err CostExceeded).
+
+(* ... and a success needs no more budget than the cost it reports (used for tightness only;
+   finding F6 - the pre-hard-fork unknown-operator cost wrapping 64 bits - violates it) *)
+Definition dop_tight (d : dialect) : Prop :=
+  forall o a m ext c v, d_op d o a m ext = Ok (c, v) ->
+  forall m', c <= m' -> d_op d o a m' ext = Ok (c, v).
 
 Section TwoBudgets.
   Variable d : dialect.
@@ -125,9 +131,9 @@ Section TwoBudgets.
     rel_res eq (d_op d o a m1 ext) (d_op d o a m2 ext).
   Proof.
     intros Hm. destruct (d_op d o a m1 ext) as [[c v]|e] eqn:E1.
-    - destruct (Hop _ _ _ _ _ _ E1 m2) as (H1 & _ & _). rewrite (H1 Hm). reflexivity.
+    - destruct (Hop _ _ _ _ _ _ E1 m2) as (H1 & _). rewrite (H1 Hm). reflexivity.
     - destruct (d_op d o a m2 ext) as [[c v]|e2] eqn:E2; cbn; [|exact I].
-      destruct (Hop _ _ _ _ _ _ E2 m1) as (_ & _ & [H|H]); congruence.
+      destruct (Hop _ _ _ _ _ _ E2 m1) as (_ & [H|H]); congruence.
   Qed.
 
   Lemma apply_op_sim s1 s2 cost m1 m2 :
@@ -383,3 +389,31 @@ Proof.
   destruct (eval_pair d init_state p e) as [[c s]|] eqn:E; cbn [bind]; [|discriminate].
   apply run_loop_sound. eapply eval_pair_balanced; [exact E|reflexivity].
 Qed.
+
+(* ------------------------------------------------------------------ corollaries (C02) *)
+Lemma run_program_upward d (Hop : dop_budget d) fuel p e M1 M2 r :
+  eff M1 <= eff M2 -> run_program d fuel p e M1 = Ok r -> run_program d fuel p e M2 = Ok r.
+Proof.
+  intros H H1. pose proof (run_program_sim d Hop fuel p e M1 M2 H) as S. rewrite H1 in S.
+  destruct (run_program d fuel p e M2); cbn in S; [subst; reflexivity|contradiction].
+Qed.
+
+Lemma run_program_fail_kind d (Hop : dop_budget d) fuel p e M1 M2 r :
+  eff M1 <= eff M2 -> run_program d fuel p e M2 = Ok r ->
+  run_program d fuel p e M1 = Ok r \/ run_program d fuel p e M1 = Err CostExceeded.
+Proof.
+  intros H H2. pose proof (run_program_sim d Hop fuel p e M1 M2 H) as S. rewrite H2 in S.
+  destruct (run_program d fuel p e M1); cbn in S; [left; subst; reflexivity|right; subst; reflexivity].
+Qed.
+
+Lemma run_program_same d (Hop : dop_budget d) fuel p e M1 M2 r1 r2 :
+  run_program d fuel p e M1 = Ok r1 -> run_program d fuel p e M2 = Ok r2 -> r1 = r2.
+Proof.
+  intros H1 H2. destruct (N.le_ge_cases (eff M1) (eff M2)) as [H|H].
+  - pose proof (run_program_upward d Hop fuel p e M1 M2 r1 H H1). congruence.
+  - pose proof (run_program_upward d Hop fuel p e M2 M1 r2 H H2). congruence.
+Qed.
+
+Lemma run_program_zero d fuel p e :
+  run_program d fuel p e 0 = run_program d fuel p e COST_MAX.
+Proof. reflexivity. Qed.
